@@ -239,12 +239,24 @@ C07R(e) ==
              THEN Tag(Has(it, "v") /\ SameVal(Sr, it.v, Conv(Sw, Sr, w.v)), "projection") \cup Tag(it.used = w.n, "position")
              ELSE {}))
 
+\* The three ways a Serializer / Deserializer can hold its writer / reader (by value, by pointer, by unique_ptr;
+\* base/serializer.h specializes each) behave alike: documented bytes, exact size, value back, all bytes consumed
+FormName(f) == IF f = 0 THEN "by-value" ELSE IF f = 1 THEN "by-pointer" ELSE "by-unique_ptr"
+FormsFails(e) ==
+  UnionOver(Len(e.steps), LAMBDA i :
+    LET s == e.steps[i]
+        S == T(s.tid) IN
+    Tag(s.st = 0 /\ s.bytes = Enc(S, s.v), "serializer-" \o FormName(s.form) \o ":bytes")
+    \cup Tag(s.size = Len(s.bytes), "serializer-" \o FormName(s.form) \o ":size")
+    \cup Tag(s.st2 = 0 /\ SameVal(S, s.v2, s.v) /\ s.used = Len(s.bytes), "deserializer-" \o FormName(s.form) \o ":roundtrip"))
+
 \* ---- dispatch ---------------------------------------------------------------
 HasPrior(e) == \E i \in 1..Len(e.items) : Has(e.items[i], "prior")
 
 Fails(e) ==
   IF e.e \in AbnormalKinds THEN {"abnormal"}
   ELSE IF e.e \in {"Reset", "Facts", "Echo", "S"} THEN {}
+  ELSE IF e.e = "FORMS" THEN (IF PROP \in {"C01", "C03", "C06"} THEN FormsFails(e) ELSE {})
   ELSE CASE PROP = "C01" -> IF e.e = "W" THEN C01W(e) ELSE IF e.e = "R" THEN C01R(e) ELSE {}
          [] PROP = "C02" -> IF e.e = "R" THEN C02R(e) ELSE {}
          [] PROP = "C03" -> IF e.e = "W" THEN C03W(e) ELSE {}
